@@ -17,7 +17,9 @@ RULE = ('all fill patterns {number, blank, text}^n of rectangles with <= 4 '
         'rectangles up to 8x8; SUM, AVERAGE, MIN, MAX, COUNT, COUNTA, '
         'SUMPRODUCT with 1-4 arguments mixing ranges and numeric scalars; '
         'every row/column split; argument permutations; content '
-        'permutations.  non-trivial = rectangle with >= 2 kinds of content '
+        'permutations; the same rectangle addressed twice in one formula; '
+        'library calls on Arrays of value objects (arguments unchanged, same '
+        'result again).  non-trivial = rectangle with >= 2 kinds of content '
         'or 2 dimensions or >= 2 arguments; distinct by (function, shape, '
         'pattern, argument layout)')
 ASSUMPTIONS = [
@@ -27,7 +29,8 @@ ASSUMPTIONS = [
 ]
 FLOORS = {'aggregate_evaluations': 3000, 'two_dimensional': 200,
           'split_relations': 100, 'permutation_relations': 100,
-          'order_relations': 100, 'sumproduct_cases': 100}
+          'order_relations': 100, 'sumproduct_cases': 100,
+          'same_cells_twice': 300, 'library_calls_monitored': 100}
 ANCHOR_FUNCS = {
     'xlcalculator/xlfunctions/math.py': ['SUM', 'SUMPRODUCT'],
     'xlcalculator/xlfunctions/statistics.py': ['AVERAGE', 'MIN', 'MAX',
@@ -186,6 +189,36 @@ def run(ctx):
                   {'func': 'SUM', 'cells': cells, 'kinds': kinds,
                    'two_d': two_d, 'rel': key, 'label': 'parts',
                    'nt': ('split-col', k) + nt_base})
+        # the same cells addressed several times within ONE formula: the
+        # whole minus its parts, and two aggregates over one rectangle
+        if rows > 1:
+            k = rng.randint(1, rows - 1)
+            B.add(('bin', '-', ('bin', '-', rect_formula(
+                'SUM', c1, r1, c2, r2), rect_formula(
+                    'SUM', c1, r1, c2, r1 + k - 1)), rect_formula(
+                        'SUM', c1, r1 + k, c2, r2)),
+                  {'func': 'SUM', 'cells': cells, 'kinds': kinds,
+                   'two_d': two_d, 'nt': ('whole-minus-parts', k) + nt_base})
+            ctx.event('same_cells_twice')
+        if cols > 1:
+            k = rng.randint(1, cols - 1)
+            B.add(('bin', '-', ('bin', '-', rect_formula(
+                'SUM', c1, r1, c2, r2), rect_formula(
+                    'SUM', c1, r1, c1 + k - 1, r2)), rect_formula(
+                        'SUM', c1 + k, r1, c2, r2)),
+                  {'func': 'SUM', 'cells': cells, 'kinds': kinds,
+                   'two_d': two_d, 'nt': ('whole-minus-cols', k) + nt_base})
+            ctx.event('same_cells_twice')
+        usable = [f for f in AGGS if f != 'SUMPRODUCT' and
+                  (has_num or f not in NEEDS_NUMBER)]
+        for _p in range(2):
+            f, g = rng.choice(usable), rng.choice(usable)
+            B.add(('bin', rng.choice(['+', '-']),
+                   rect_formula(f, c1, r1, c2, r2),
+                   rect_formula(g, c1, r1, c2, r2)),
+                  {'func': f + '+' + g, 'cells': cells, 'kinds': kinds,
+                   'two_d': two_d, 'nt': ('two-aggregates', f, g) + nt_base})
+            ctx.event('same_cells_twice')
         # MIN <= AVERAGE <= MAX
         if has_num:
             key = ('order', id(matrix))
@@ -346,6 +379,66 @@ def run(ctx):
                     'kinds': f'after-{step}-sets', 'two_d': rows > 1 and
                     cols > 1, 'nt': (f, 'history', step, rows, cols)},
                     got, want)
+
+    # ---- library calls: the arguments are the caller's ---------------------------
+    # the functions are handed Arrays of the library's own value objects (what
+    # a range evaluates to); a call must leave its arguments as they were and
+    # the same call again must give the same result
+    from xlcalculator.xlfunctions import xl, func_xltypes as T
+    from vlib import monitors
+    for _ in range((3000 if thorough else 150) // ctx.nshards + 1):
+        rows, cols = rng.randint(1, 4), rng.randint(1, 4)
+        flat = [v if rng.random() < 0.75 else
+                (None if rng.random() < 0.6 else rng.choice(TEXTS))
+                for v in numbers(rng, rows * cols)]
+        if not any(isinstance(v, float) for v in flat):
+            flat[-1] = 2.5
+
+        def typed(v):
+            return T.BLANK if v is None else T.ExcelType.cast_from_native(v)
+        arr = T.Array([[typed(v) for v in flat[r * cols:(r + 1) * cols]]
+                       for r in range(rows)])
+        scalar = T.Number(rng.randint(-80, 80) / 8)
+        cells = {(S, 1 + i % cols, 1 + i // cols): v
+                 for i, v in enumerate(flat) if v is not None}
+        wb = ref.Workbook(cells)
+        rg = ('rng', None, 1, 1, cols, rows, F4)
+        sc = ('lit', scalar.value, repr(scalar.value))
+        for f in rng.sample(AGGS, 4):
+            args, ast = ([arr, arr], ('call', f, [rg, rg])) \
+                if f == 'SUMPRODUCT' else \
+                ([arr, scalar], ('call', f, [rg, sc]))
+            before = monitors.norm(args)
+            got = monitors.call_outcome(xl.FUNCTIONS[f], *args)
+            after = monitors.norm(args)
+            again = monitors.call_outcome(xl.FUNCTIONS[f], *args)
+            ctx.event('library_calls_monitored')
+            ctx.case((f, 'library', rows, cols, kinds_of(
+                [flat[r * cols:(r + 1) * cols] for r in range(rows)])))
+            try:
+                want = ('value', ref.to_norm(wb.eval(ast, S)))
+            except ref.Undecided:
+                want = None
+            bad = []
+            if before != after:
+                bad.append(f'the call changed its arguments: {before} -> '
+                           f'{after}')
+            if again != got:
+                bad.append(f'the same call again gives {again}')
+            if want is not None and got != want and not (
+                    got[0] == 'value' and got[1][0] == 'num' and
+                    want[1][0] == 'num' and abs(got[1][1] - want[1][1])
+                    <= 1e-9 * max(1.0, abs(want[1][1]))):
+                bad.append(f'reference {want[1]}')
+            if bad:
+                ctx.fail(f'{f}(Array {flat} as {rows}x{cols}, '
+                         f'{scalar.value}) -> {got}: ' + '; '.join(bad),
+                         {'function': f, 'matrix': [
+                             flat[r * cols:(r + 1) * cols]
+                             for r in range(rows)], 'scalar': scalar.value,
+                          'observed': got, 'again': again},
+                         monitor='arguments-unchanged',
+                         group=f'library:{f}:{bad[0][:20]}')
 
     # ---- metamorphic relations on the observed values ------------------------
     def num(got):
